@@ -227,10 +227,21 @@ theorem sameRows_of_groupsSame {x y : RoomRow} (ha : x.admins.Perm y.admins) (hg
 
 /-- **import on top of an earlier version.** When the candidate covers what the importer holds, the merged
     definition that is stored and parsed holds the candidate's rows, list by list. -/
-theorem prepareWithHistory_sameRows {df : Defects} {room : Room} {old cand merged : RoomRow} {need : Bool}
+theorem roomRowCheck_ok {room : Room} {old cand c' : RoomRow} (h : roomRowCheck room old cand = .ok c') :
+    c'.rid = cand.rid ∧ c'.admins = cand.admins ∧ c'.groups = cand.groups := by
+  unfold roomRowCheck at h
+  split at h
+  · cases h; exact ⟨rfl, rfl, rfl⟩
+  · split at h
+    · split at h
+      · cases h; exact ⟨rfl, rfl, rfl⟩
+      · cases h
+    · cases h; exact ⟨rfl, rfl, rfl⟩
+
+theorem prepareLists_sameRows {df : Defects} {room : Room} {old cand merged : RoomRow} {need : Bool}
     (hcov : Covers cand old) (hn : (cand.groups.map (·.gid)).Nodup)
-    (h : prepareWithHistory df room old cand = .ok (need, merged)) : SameRows merged cand := by
-  unfold prepareWithHistory at h
+    (h : prepareLists df room old cand = .ok (need, merged)) : SameRows merged cand := by
+  unfold prepareLists at h
   split at h
   · cases h
   · rename_i admins hadm
@@ -250,6 +261,38 @@ theorem prepareWithHistory_sameRows {df : Defects} {room : Room} {old cand merge
             subst e
             exact sameRows_of_groupsSame (x := { cand with admins := sortUsers false cand.admins, groups })
               (sortUsers_perm false cand.admins) (mergeOldGroups_same (groupsSame_refl _) hn hcov.groups hmg)
+
+theorem prepareLists_rid {df : Defects} {room : Room} {old cand merged : RoomRow} {need : Bool}
+    (h : prepareLists df room old cand = .ok (need, merged)) : merged.rid = cand.rid := by
+  unfold prepareLists at h
+  split at h
+  · cases h
+  · simp only at h
+    split at h
+    · cases h
+    · split at h
+      · cases h
+      · split at h
+        · cases h
+        · split at h
+          · cases h
+          · simp only [Except.ok.injEq, Prod.mk.injEq] at h
+            rw [← h.2]
+
+/-- **import on top of an earlier version**: the merged definition holds the candidate's rows and keeps its id -/
+theorem prepareWithHistory_sameRows {df : Defects} {room : Room} {old cand merged : RoomRow} {need : Bool}
+    (hcov : Covers cand old) (hn : (cand.groups.map (·.gid)).Nodup)
+    (h : prepareWithHistory df room old cand = .ok (need, merged)) :
+    SameRows merged cand ∧ merged.rid = cand.rid := by
+  unfold prepareWithHistory at h
+  split at h
+  · cases h
+  · rename_i c' hc
+    obtain ⟨e1, e2, e3⟩ := roomRowCheck_ok hc
+    have hcov' : Covers c' old := ⟨by rw [e2]; exact hcov.admins, by rw [e3]; exact hcov.groups⟩
+    have hs := prepareLists_sameRows hcov' (by rw [e3]; exact hn) h
+    refine ⟨?_, (prepareLists_rid h).trans e1⟩
+    exact ⟨by rw [← e2]; exact hs.admins, by rw [← e3]; exact hs.fwd, by rw [← e3]; exact hs.bwd⟩
 
 theorem exportRoom_gids_nodup {df : Defects} {rr : RoomRow} (hn : (rr.groups.map (·.gid)).Nodup) :
     ((exportRoom df rr).groups.map (·.gid)).Nodup := by
